@@ -1,6 +1,7 @@
 """C10 - every reported location is the true line and column (structural clauses)."""
 from __future__ import annotations
 
+from rules import generic_rules as G
 from rules import location_rules as LR
 from rules import lt_agree
 from sa.loader import Repo, fixture
@@ -43,6 +44,7 @@ def run(check: Check, repo: Repo, tier: str) -> None:
     LR.render_total(check, repo)
     LR.loc_prefix(check, repo)
     LR.loc_offset(check, repo)
+    G.zip_filter(check, repo.package_modules("error") + repo.package_modules("language") + repo.package_modules("pyutils"))
     # controls for LT-AGREE
     from sa.report import Check as _C
     for name, expected in (("lt_bad", True), ("lt_ok", False)):
